@@ -25,14 +25,12 @@ def main():
     if st:
         print("refusing: /repo working tree is not clean:\n" + st)
         return 2
-    r = subprocess.run(["git", "-C", "/repo", "apply", "--3way", patch], capture_output=True, text=True)
+    r = subprocess.run(["git", "-C", "/repo", "apply", patch], capture_output=True, text=True)
     if r.returncode != 0:
-        r = subprocess.run(["git", "-C", "/repo", "apply", patch], capture_output=True, text=True)
-        if r.returncode != 0:
-            print("patch does not apply:", r.stderr[-2000:])
-            subprocess.run(["git", "-C", "/repo", "checkout", "--", "."])
-            subprocess.run(["git", "-C", "/repo", "reset", "-q"])
-            return 2
+        print("patch does not apply:", r.stderr[-2000:])
+        subprocess.run(["git", "-C", "/repo", "reset", "-q"])
+        subprocess.run(["git", "-C", "/repo", "checkout", "--", "."])
+        return 2
     results = {}
     try:
         if baseline:
@@ -47,9 +45,12 @@ def main():
             results[p] = {"exit": c.returncode, "violations": len(vio), "wall_s": round(time.time() - t0, 1), "detail": detail, "stderr_tail": c.stderr[-300:] if c.returncode == 2 else ""}
             print("%s exit=%d violations=%d (%.0fs) %s" % (p, c.returncode, len(vio), time.time() - t0, (detail[0][:200] if detail else (c.stderr[-200:].replace("\n", " ") if c.returncode == 2 else ""))))
     finally:
-        subprocess.run(["git", "-C", "/repo", "checkout", "--", "."])
         subprocess.run(["git", "-C", "/repo", "reset", "-q"])
+        subprocess.run(["git", "-C", "/repo", "checkout", "--", "."])
         subprocess.run(["git", "-C", "/repo", "clean", "-fdq", "--", "nutype_macros", "nutype"])
+        st = subprocess.run(["git", "-C", "/repo", "status", "--porcelain", "--untracked-files=no"], capture_output=True, text=True).stdout.strip()
+        if st:
+            print("WARNING: /repo not clean after revert:\n" + st)
     print("RESULT " + json.dumps({"patch": patch, "caught_by": [p for p in props if results.get(p, {}).get("exit") == 1], "machinery": [p for p in props if results.get(p, {}).get("exit") == 2]}))
     out = os.environ.get("SEEDTEST_OUT")
     if out:
